@@ -347,14 +347,6 @@ def check_dfxp_case(acs, cfg, res):
         if isinstance(r, Err) and isinstance(m, Err) and r.code == m.code:
             return "refused"
         if isinstance(r, Err) and not isinstance(m, Err):
-            msg = str(impl.last_exc.args[0]) if getattr(impl.last_exc, "args", None) else str(impl.last_exc)
-            if fit and r.code == 2 and msg.startswith("Invalid size: -"):
-                # fit_to_screen on an origin beyond the safe area writes a negative extent (90 - x < 0) that the
-                # reader's size grammar rejects: known_findings.d/C12-fit-negative-extent.json
-                res["violations"].append(dict(base, kind="dfxp-roundtrip-raises-negative-extent", shape="negative-extent",
-                                              impl_obs=msg[:120],
-                                              what=f"DFXP written with fit_to_screen on cannot be read back: {msg[:60]}"))
-                return "known-negative-extent"
             res["violations"].append(dict(base, kind="dfxp-roundtrip-raises", impl_obs=repr(r),
                                           what=f"DFXP write+read raised {r!r} ({impl.last_exc!r})"))
             return "viol"
@@ -362,55 +354,66 @@ def check_dfxp_case(acs, cfg, res):
         return "dis"
     observed = word_layouts(r.v)
     g, langs = m.v               # transformed layouts, wire form
-    reqs_ok, reqs_m, meta = [], [], []
+    ids = posgen.word_ids(acs)
+    words = {v: k for k, v in ids.items()}
+    # the tree model: region table, region attributes on div/p/span, nearest-ancestor resolution on read (1210)
+    tm = r_result(oracle_batch([(1210, posgen.w_dset(acs, m.v, ids))])[0])
+    model_words = {}
+    if isinstance(tm, Ok):
+        for rl in tm.v:
+            for rc in rl[1]:
+                for wid, lay in rc[1]:
+                    model_words[words[wid]] = geom.r_layout(lay)
+    reqs_ok, meta = [], []
     for lg, (ll, caps) in zip(acs["langs"], langs):
         for c, (cl, nodes) in zip(lg["caps"], caps):
-            in_span = None
-            for n, (kind, nl) in zip(c["nodes"], nodes):
-                if n[0] == "style":
-                    in_span = nl if n[1] else None
+            levels = posgen.node_levels(c["nodes"])
+            wspan = posgen.written_span(c["nodes"])
+            for i, (n, (kind, nl)) in enumerate(zip(c["nodes"], nodes)):
                 if n[0] != "text":
                     continue
-                # node level: the enclosing span's layout, else the text node's own
-                spanned = in_span is not None and in_span != []
-                node_l = in_span if spanned else nl
+                # node level (statement): the text node's own layout, else the nearest enclosing span's
+                src = levels[i]
+                node_l = [] if src is None else nodes[src][1]
                 shape = None
-                if not spanned and n[-1] is not None and any(x is not None for x in posgen.tup(n[-1])[:4]) \
-                        and geo(n[-1]) != geo(c["layout"]):
-                    shape = "bare-text"
+                if src is not None and geo(c["nodes"][src][-1]) != geo(c["layout"]):
+                    ws = wspan[i]
+                    if ws is None:
+                        shape = "bare-text"          # DESIGN section 8 #19: no <span> is written around this text
+                    elif geo(c["nodes"][ws][-1]) != geo(c["nodes"][src][-1]):
+                        shape = "flattened-span"     # nested spans are flattened by the writer
                 o = observed.get(n[1], "missing")
                 if o == "missing":
                     res["violations"].append(dict(base, kind="dfxp-word-lost", impl_obs=sorted(observed),
                                                   what=f"the word {n[1]!r} is not a text node after DFXP write+read"))
                     return "viol"
                 reqs_ok.append((1201, [ll, cl, node_l, o]))
-                # the model follows the code: the layout of a text node outside a span is not written
-                reqs_m.append((1202, [g, ll, cl, in_span if spanned else []]))
                 meta.append((n[1], shape, o))
     oks = oracle_batch(reqs_ok)
-    models = oracle_batch(reqs_m)
     bad = None
-    for (word, shape, o), ok, mo in zip(meta, oks, models):
+    for (word, shape, o), ok in zip(meta, oks):
         if ok != 1:
             this = dict(base, kind="dfxp-effective-layout" + ("" if shape is None else "-" + shape), shape=shape, word=word,
                         impl_obs=repr(o.v if o is not None else None)[:400],
                         what=f"after DFXP write+read (relativize={rel}, fit={fit}) the word {word!r} does not have the "
                              f"effective layout of its node/caption/language level"
-                             + (" (bare TEXT node whose layout differs from its caption's)" if shape else ""))
+                             + ("" if shape is None else " (its node-level layout is not carried by the <span> the writer puts "
+                                                         "it in: %s)" % shape))
             if shape is None:
                 bad = this
                 break
             bad = bad or this
-        mm = r_result(mo, geom.r_layout)
+        mm = model_words.get(word)
         op = None if o is None else geom.r_layout_plain(o.v)
-        if ok == 1 and not isinstance(mm, Err) and op is not None and not close_layout(mm.v, op) \
-                and close_layout(mm.v, op, Fraction(1, 100) + Fraction(1, 10**9)):
+        if ok == 1 and mm is not None and op is not None and not close_layout(mm, op) \
+                and close_layout(mm, op, Fraction(1, 100) + Fraction(1, 10**9)):
             # binary64 result on the other side of a rounding tie: both prints are within 1/200 of the exact value
             NEAR_TIES[0] += 1
             continue
-        if isinstance(mm, Err) or op is None or not close_layout(mm.v, op):
+        if mm is None or op is None or not close_layout(mm, op):
             res["disagreements"].append(dict(base, stream="dfxp", word=word, impl=repr(op)[:300], model=repr(mm)[:300]))
-            return "dis"
+            if bad is None or bad.get("shape"):
+                return "dis"
     if bad:
         res["violations"].append(bad)
         return "known-shape" if bad.get("shape") else "viol"
@@ -437,6 +440,17 @@ def stream_dfxp(ctx, res):
         if key == "ok" and levels:
             res["nontrivial"].add(("dfxp", repr(acs), rel, fit))
         outcomes[key] = outcomes.get(key, 0) + 1
+    # exhaustive grid: language x caption x span-with/without-own-layout x nesting depth (seeded reader bug C12_c shape)
+    grid = posgen.span_grid()
+    gout = {}
+    for acs in grid:
+        for cfg in ((False, False, None, None), (True, True, 640, 360)):
+            key = check_dfxp_case(acs, cfg, res)
+            gout[key] = gout.get(key, 0) + 1
+            if key == "ok":
+                res["nontrivial"].add(("dfxp-grid", repr(acs), cfg))
+    res["distribution"]["dfxp_span_grid_cases"] = 2 * len(grid)
+    res["distribution"]["dfxp_span_grid_outcomes"] = gout
     res["distribution"]["dfxp_outcomes"] = outcomes
     res["distribution"]["dfxp_values_printed_on_the_other_side_of_a_rounding_tie(model vs binary64; both within 1/200)"] = NEAR_TIES[0]
     res["distribution"]["dfxp_level_subsets"] = [list(x) for x in level_sets]
